@@ -1111,8 +1111,10 @@ pub mod fs {
         pub len: usize,
         /// length at the last completed `sync_all`
         pub synced: usize,
+        /// created by the process under verification (not laid out by a harness prelude)
+        pub born: bool,
     }
-    pub const EMPTY_INODE: Inode = Inode { ever: false, linked: false, len: 0, synced: 0 };
+    pub const EMPTY_INODE: Inode = Inode { ever: false, linked: false, len: 0, synced: 0, born: false };
 
     /// File contents, kept in a static of their own: a read at a symbolic (slot, offset) is a mux
     /// over the whole object it points into, so that object holds nothing but the bytes.
@@ -1469,6 +1471,7 @@ pub mod fs {
             ino.linked = true;
             ino.len = 0;
             ino.synced = 0;
+            ino.born = true;
             let mode = if self.append { M_CREATOR } else if self.read { M_READ } else { M_OTHER };
             Ok(File { slot, pos: 0, mode })
         }
